@@ -423,7 +423,7 @@ pub fn property() -> Property {
                 name: "single",
                 rule: "standalone bar on a target with refresh rate None/1/20/255, 0 or 21-39 tick+inc pairs at the creation instant (exhausting the 20-frame and the 10-update buckets), 0-10 (thorough 24) prior ops with a clock step of 0/1/100 ms, then one terminator: finish/finish_with_message/finish_and_clear/abandon/abandon_with_message/finish_using_style x5/drop of the last handle x5 finish behaviours/iterator exhaustion (wrap_iter or progress_with) x5; the call must paint a frame showing the final state, is_finished/position/message must be final, a later drop makes no terminal call; non-trivial = the limiter was exhausted at the terminator",
                 strategy: single_strategy,
-                cases: |t| t.pick(5_000, 250_000),
+                cases: |t| t.pick(5_000, 1_000_000),
                 run: run_single,
                 signature: no_signature,
                 essential: &["limiter_exhausted_at_terminator", "limiter_not_exhausted", "explicit_call", "finish_using_style", "drop_last_handle", "iterator_exhausted", "clearing_variant", "second_completion_after_reset"],
@@ -434,7 +434,7 @@ pub fn property() -> Property {
                 name: "multi",
                 rule: "MultiProgress (target None/1/20/255 Hz, clock step 0/1/200 ms, limiter exhausted by 22 ticks first) with add/insert_before/insert_after/tick/inc/set_message/finish*/abandon/drop only, then the remaining handles dropped in a generated order and the MultiProgress dropped; every finish/abandon/drop-of-unfinished must paint, every painted frame must match the list model, and at the end the screen must be exactly the final renderings of the visibly finished bars in visual order; non-trivial = a terminator right after a skipped draw, or finish order != visual order",
                 strategy: multi_strategy,
-                cases: |t| t.pick(3_000, 150_000),
+                cases: |t| t.pick(3_000, 600_000),
                 run: run_multi,
                 signature: no_signature,
                 essential: &["limiter_exhausted_at_terminator", "finish_order_differs_from_visual_order", "visible_final_renderings"],
